@@ -49,6 +49,7 @@ def main():
         rec.harness_errors.append(traceback.format_exc()[-4000:])
     s = rec.summary()
     s['status'] = status
+    s['extra'] = getattr(mod, 'EXTRA', None)
     tmp = outpath + '.tmp'
     with open(tmp, 'w') as f:
         json.dump(s, f, default=repr)
